@@ -588,7 +588,6 @@ def sex_key(case):
     return (
         f"{case['sex']}-sample/{'male' if case['male_ref'] else 'female'}-reference/"
         + ("y-bins" if case["n_y"] else "no-y")
-        + ("/weights" if case["weights"] != "none" else "/no-weights")
         + ("/par-genome" if case.get("par") else "")
         + ("/y-at-null" if case.get("y_deep", -4.0) <= -15 else "")
     )
@@ -695,7 +694,7 @@ def run_sex(case, ctx):
 # command line
 # =============================================================================================
 def _scratch():
-    return tempfile.mkdtemp(prefix="c15_", dir="/dev/shm" if os.path.isdir("/dev/shm") else "/tmp")
+    return tempfile.mkdtemp(prefix="c15_", dir="/tmp")
 
 
 def run_cli_sex(case, ctx):
